@@ -101,11 +101,34 @@ func xmlUnmarshalElement(el *etree.Element, obj interface{}) error {
 		return err
 	}
 
-	err = xml.Unmarshal(data, obj)
-	if err != nil {
-		return err
+	// Namespace declarations are not attributes of the element. encoding/xml matches a
+	// field tagged `xml:"Foo,attr"` against an attribute Foo of any namespace, xmlns:Foo
+	// included, so an unused declaration (which exclusive canonicalization neither signs
+	// nor keeps) could otherwise pose as the attribute in whatever is decoded from the
+	// document as it arrived.
+	decoder := xml.NewDecoder(bytes.NewReader(data))
+	for {
+		token, err := decoder.Token()
+		if err != nil {
+			return err
+		}
+
+		start, ok := token.(xml.StartElement)
+		if !ok {
+			continue
+		}
+
+		attrs := make([]xml.Attr, 0, len(start.Attr))
+		for _, attr := range start.Attr {
+			if attr.Name.Space == "xmlns" || (attr.Name.Space == "" && attr.Name.Local == "xmlns") {
+				continue
+			}
+			attrs = append(attrs, attr)
+		}
+		start.Attr = attrs
+
+		return decoder.DecodeElement(obj, &start)
 	}
-	return nil
 }
 
 func (sp *SAMLServiceProvider) getDecryptCert() (*tls.Certificate, error) {
